@@ -62,6 +62,8 @@ def run_engine_check(prop, tier, seed, scenarios=None, replay=False):
     vlib.build_harness()
     if scenarios is None:
         scenarios = ENGINE[prop](rnd, k)
+        import engine_model
+        scenarios += engine_model.gen_scenarios(prop, 45 * k, seed)   # behaviours of Engine.tla replayed on the real engine
     for i, s in enumerate(scenarios):
         s.setdefault("id", i + 1)
         s.setdefault("seed", seed * 1000 + i)
@@ -121,11 +123,40 @@ def run_engine_check(prop, tier, seed, scenarios=None, replay=False):
         replay_paths.append(p)
         print("VIOLATION property=%s replay=%s" % (prop, p))
         log("  clause %s at event %s" % (h["clause"], json.dumps(excerpt(tr, h["i"], 0, 0))))
+    # model -> code binding: how many generated behaviours the real engine followed to the end, and whether the
+    # stored plan then equals the model's prediction (a mismatch is MODEL-DRIFT: reported, never a verdict)
+    replay = {"generated": 0, "followed": 0, "diverged": 0, "final_equal": 0, "drift": []}
+    for s in scenarios:
+        if s.get("mode") != "model":
+            continue
+        replay["generated"] += 1
+        tr = traces.get((s["id"], 0, 0))
+        if tr is None:
+            continue
+        if any(e["ev"] == "Diverged" for e in tr):
+            replay["diverged"] += 1
+            continue
+        replay["followed"] += 1
+        wr = [e for e in tr if e["ev"] == "WaitRet"]
+        if wr:
+            real = {x["obj"]: [x["st"], x["natt"]] for x in wr[-1]["snap"]}
+            model = {o: [v["st"], v["natt"]] for o, v in s["model_final"].items()}
+            if real == model and wr[-1]["reason"] == s["model_reason"]:
+                replay["final_equal"] += 1
+            elif len(replay["drift"]) < 3:
+                replay["drift"].append({"scenario": s["id"], "diff": {o: [model.get(o), real.get(o)] for o in set(real) | set(model) if real.get(o) != model.get(o)},
+                                        "reason": [s["model_reason"], wr[-1]["reason"]]})
+    if replay["generated"]:
+        drift = replay["followed"] - replay["final_equal"]
+        log("[%s] model behaviours replayed: %d generated, %d followed to the end, %d diverged, %d final states equal to the model's%s" % (
+            prop, replay["generated"], replay["followed"], replay["diverged"], replay["final_equal"], (" MODEL-DRIFT in %d" % drift) if drift else ""))
     # evidence
     tags = collections.Counter(trace_ctx(t)["tag"] for t in traces.values())
     nev = sum(len(t) for t in traces.values())
     sample_keys = list(traces.keys())[:: max(1, len(traces) // 3)][:3]
-    samples = [{"scenario": byid.get(kk[0]), "trace_key": list(kk), "events": len(traces[kk]), "first_events": excerpt(traces[kk], 6, 5, 6)} for kk in sample_keys]
+    def slim(sc):
+        return {k: (v if k not in ("evs", "model_final") else "...") for k, v in (sc or {}).items()}
+    samples = [{"scenario": slim(byid.get(kk[0])), "trace_key": list(kk), "events": len(traces[kk]), "first_events": excerpt(traces[kk], 6, 5, 6)} for kk in sample_keys]
     model = model_stats(prop, tier, seed)
     cov = {
         "states": int(model.get("distinct", 0)) or int(mstats["states"]),
@@ -141,6 +172,8 @@ def run_engine_check(prop, tier, seed, scenarios=None, replay=False):
         "hung_scenarios": info["hung"], "unreproduced_hangs": unreproduced, "died": [d["scn"] for d in info["died"]],
         "monitor_wall_s": round(mstats["wall"], 2),
         "model": model,
+        "model_behaviours_replayed": replay,
+        "model_conformance": "drift" if replay["followed"] > replay["final_equal"] else "ok",
         "exhaustive": False,
     }
     wall = time.time() - t0
